@@ -488,9 +488,46 @@ theorem restart_observe_index {σ : Type} (delta : Nat → Nat → σ → σ) (s
 
 namespace Restart
 
+/-! ### open = pending migrations ∘ identity -/
+
+/-- **migration_preserves_observation.**  On a database whose stored aggregates equal the recomputation from
+the contracts (C05's invariant) and whose net address carries no port (the settings manager refuses one), each
+re-runnable migration leaves everything the getters show as it was: `recalcContractMetrics` writes the
+aggregates it finds, the port trim finds nothing to trim, the index creation touches no data. -/
+theorem migration_preserves_observation (db : MDb) (hm : db.totals = recompute db.contracts) (hp : db.port = none)
+    (m : Mig) : observeDb (applyMig db m) = observeDb db ∧
+      (applyMig db m).totals = recompute (applyMig db m).contracts ∧ (applyMig db m).port = none := by
+  cases m <;> simp [applyMig, observeDb, hm, hp]
+
+theorem migrations_preserve_observation (ms : List Mig) (db : MDb) (hm : db.totals = recompute db.contracts)
+    (hp : db.port = none) : observeDb (ms.foldl applyMig db) = observeDb db := by
+  induction ms generalizing db with
+  | nil => rfl
+  | cons m rest ih =>
+    obtain ⟨h1, h2, h3⟩ := migration_preserves_observation db hm hp m
+    simp only [List.foldl_cons]
+    rw [ih (applyMig db m) h2 h3, h1]
+
+/-- **open = migrations ∘ identity**: whatever the stored schema version (34 … 39: 0 … 5 pending migrations),
+opening the database shows the same contracts, aggregates and settings as before it was closed. -/
+theorem open_preserves_observation (db : MDb) (hm : db.totals = recompute db.contracts) (hp : db.port = none) :
+    observeDb (openDb db) = observeDb db := by
+  have := migrations_preserve_observation (pendingOf db.version) db hm hp
+  simpa [openDb, observeDb] using this
+
+/-- non-vacuity, with a renewed v2 contract that earned 7: five pending migrations, nothing changes … -/
+example :
+    let cs : List MC := [⟨true, .renewed, 0, 7⟩, ⟨true, .active, 5, 3⟩, ⟨false, .successful, 0, 2⟩, ⟨false, .failed, 0, 9⟩]
+    let db : MDb := { contracts := cs, totals := recompute cs, host := 1, port := none, version := 34 }
+    db.totals = ⟨5, 3, 9⟩ ∧ observeDb (openDb db) = observeDb db ∧ (openDb db).version = 39 := by decide
+
+/-- … whereas a recomputation that forgets the `renewed` status loses those 7 -/
+example : (recomputeNoRenewed [⟨true, .renewed, 0, 7⟩, ⟨true, .active, 5, 3⟩, ⟨false, .successful, 0, 2⟩]).earned = 2 := by decide
+
 /-! ### open_is_readonly -/
 
-/-- **open_is_readonly.**  `restart` leaves the persisted part of every engine
+/-- **open_is_readonly** (no migration pending; with pending ones: `open_preserves_observation`).
+`restart` leaves the persisted part of every engine
 state untouched, and the constructors of the current tree call no writing store
 method except `SetAvailable` (volume file found / missing). -/
 theorem open_is_readonly :
